@@ -187,6 +187,21 @@ def run(ctx, rep):
             if f is not None and f.span.get('expn'):
                 derived = True  # derive / bitflags generated code follows the types
             ok = same or matches(base_name, allow) or derived
+            if not ok:
+                # a closure of a helper that was inlined into documented feature-dependent functions belongs to them
+                homes = set()
+                work = [base_name]
+                while work:
+                    x = work.pop()
+                    for fb in (base, other):
+                        for caller, _b in (getattr(fb, 'inlined', {}) or {}).get(x, ()):
+                            if caller not in homes:
+                                homes.add(caller)
+                                work.append(caller)
+                if homes and all(matches(h.split('::{closure')[0], allow) or
+                                 (getattr(base, 'inlined', {}) or {}).get(h) or (getattr(other, 'inlined', {}) or {}).get(h)
+                                 for h in homes):
+                    ok = True
             rep.oblige('R19.1', '%s|%s' % (cfg, n), ok=ok, nontrivial=not same,
                        sample={'config_pair': 'default vs ' + cfg, 'fn': n, 'default': a, cfg: b} if not same else None)
             if not ok:
